@@ -130,7 +130,7 @@ def map_definition(tifa, function, callee, arguments, named_arguments, location)
 
 
 def zip_definition(tifa, function, callee, arguments, named_arguments, location):
-    tupled_types = TupleType((t.iterate() for t in arguments))
+    tupled_types = TupleType(tuple(t.iterate() for t in arguments))
     return GeneratorType(arguments and arguments[0].is_empty,
                          tupled_types)
 
